@@ -22,6 +22,9 @@ NatToBytes(a, n) == IF n = 0 THEN <<>>                 \* n bytes, big endian
                     ELSE NatToBytes(Div(a, FromInt(256)), n - 1) \o <<ToInt(Mod(a, FromInt(256)))>>
 
 U32(bs) == BytesToNat(bs)
+(* the precision field.  TLC integers are 32-bit: every precision at or above MaxPrec (2^30 in the trace *)
+(* specification, where observations use the same sentinel) is the one value MaxPrec                     *)
+PrecField(bs) == LET u == U32(bs) IN IF Lt(u, FromInt(MaxPrec)) THEN ToInt(u) ELSE MaxPrec
 (* two's complement int32 -> BigInt *)
 I32(bs) == LET u == BytesToNat(bs) IN IF Lt(u, Pow2(31)) THEN IMk(FALSE, u) ELSE IMk(TRUE, Sub(Pow2(32), u))
 
@@ -35,13 +38,12 @@ WellFormedGob(bs) ==
   /\ Len(bs) >= 6 /\ bs[1] = 1
   /\ LET f == Flags(bs) IN
        /\ f.mode <= 5 /\ f.accp <= 2 /\ f.form <= 2
-       /\ Lt(U32(SubSeq(bs, 3, 6)), Pow2(30))                         \* precisions stay below 2^30 in the model
        /\ f.form # 1 => Len(bs) = 6
        /\ f.form = 1 =>
             /\ Len(bs) >= 10 + WS /\ (Len(bs) - 10) % WS = 0
             /\ LET ws == WordsOf(SubSeq(bs, 11, Len(bs)))
                    N  == ConcatWords(ws, DWg)
-                   p  == ToInt(U32(SubSeq(bs, 3, 6)))
+                   p  == PrecField(SubSeq(bs, 3, 6))
                IN /\ \A i \in 1..Len(ws) : Lt(ws[i], Pow10(DWg))
                   /\ Len(ws[Len(ws)]) = DWg                          \* normalised
                   /\ p >= 1 /\ Len(N) - TrailingZeros(N) <= p
@@ -50,7 +52,7 @@ WellFormedGob(bs) ==
 (* the Decimal a well-formed payload denotes (all attributes) *)
 DecodeGob(bs) ==
   LET f == Flags(bs)
-      p == ToInt(U32(SubSeq(bs, 3, 6)))
+      p == PrecField(SubSeq(bs, 3, 6))
   IN IF f.form = 1
      THEN LET ws == WordsOf(SubSeq(bs, 11, Len(bs)))
               N  == ConcatWords(ws, DWg)
